@@ -430,6 +430,29 @@ main (void)
           jarr (o, 8);
           fprintf (out, "}\n");
         }
+      else if (!strcmp (cmd, "desseq"))
+        { /* desseq key8a key8b salt count in8 : ONE context keyed twice (the first schedule must not survive), then a block */
+          unsigned char k1[8], k2[8], in[8], o[8];
+          unhex (a0, k1);
+          unhex (a1, k2);
+          uint32_t salt = (uint32_t) strtoul (a2, 0, 10);
+          uint32_t count = (uint32_t) strtoul (a3, 0, 10);
+          unhex (a4, in);
+          struct des_ctx ctx;
+          memset (&ctx, 0xa5, sizeof ctx);                /* and the context is not assumed to start out zeroed */
+          des_set_key (&ctx, k1);
+          des_set_salt (&ctx, salt ^ 0x5a5a5a);
+          des_set_key (&ctx, k2);
+          des_set_salt (&ctx, salt);
+          des_crypt_block (&ctx, o, in, count, 0);
+          fprintf (out, "{\"e\":\"des\",\"key\":");
+          jarr (k2, 8);
+          fprintf (out, ",\"salt\":%u,\"count\":%u,\"in\":", salt, count);
+          jarr (in, 8);
+          fprintf (out, ",\"dec\":0,\"out\":");
+          jarr (o, 8);
+          fprintf (out, "}\n");
+        }
       else if (!strcmp (cmd, "destables"))
         { /* the generated lookup tables of alg-des-tables.c, one line per (table, chunk); 32-bit entries as [hi16, lo16] */
 #define DUMP2(name, L, R, n) \
